@@ -256,15 +256,18 @@ func init() {
 			{Pkg: waddrmgrPkg, Fn: "ZzC08Retry1", Tiers: "qt", Reach: []string{"c08-end", "retry-agrees"}, Bound: "the same after one committed operation"},
 			{Pkg: waddrmgrPkg, Fn: "ZzC08Batch0", Tiers: "qt", Reach: []string{"c08-end", "batch-committed", "batch-agrees"}, Bound: "ONE committed transaction holding two of the 7 operations (every ordered pair), then fresh Open compared"},
 			{Pkg: waddrmgrPkg, Fn: "ZzC08Batch1", Tiers: "qt", Reach: []string{"c08-end", "batch-committed", "batch-agrees"}, Bound: "the same after one committed operation"},
+			{Pkg: walletPkg, Fn: "ZzC08WalletDryRun", Tiers: "qt", Reach: []string{"c08w-end", "dry-run-with-change", "dry-run-without-change"}, Bound: "wallet level: one dry-run txToOutputs on a funded watching-only wallet with a SYMBOLIC amount around the point where the change becomes dust: indices unchanged in memory and on disk, the next committed NewChangeAddress returns the address a restarted wallet would issue"},
+			{Pkg: walletPkg, Fn: "ZzC08WalletDryRun2", Tiers: "t", Reach: []string{"c08w-end", "dry-run-without-change"}, Bound: "two dry runs in a row"},
 			{Pkg: waddrmgrPkg, Fn: "ZzC08L3", Tiers: "t", Reach: []string{"c08-end", "rolled-back", "commit-failed"}, Bound: "histories of 3 transactions"},
 		},
 		Assume:  mgrAssume,
-		Outside: "more than 3 transactions, imports, several accounts beyond the ones created, wallet-level dry-run transaction creation (txToOutputs)",
+		Outside: "more than 3 transactions, imports, several accounts beyond the ones created",
 	})
 	reg(&propDef{
 		ID: "C04",
 		Runs: []hrun{
-			{Pkg: waddrmgrPkg, Fn: "ZzC04", Tiers: "qt", NoWitness: true, Reach: []string{"c04-end", "created", "imported", "passphrase-changed", "root-key-neutered", "post-conversion-content-scanned", "taproot-address-issued"}, Bound: "one operation order: create, open, unlock, a taproot address (32-byte address id), 3 addresses, import private key + secret P2SH script + secret witness script, new account, private passphrase change, [neuter the root key], convert to watching-only (afterwards no stored field may open under the master key or the private crypto key), reopen, import of a private key into the reopened watching-only wallet; both passphrases, the new passphrase and both secret scripts SYMBOLIC; every window of every key/value ever written compared with 40+ secrets (and, until imports, public material)"},
+			{Pkg: waddrmgrPkg, Fn: "ZzC04", Tiers: "qt", NoWitness: true, Reach: []string{"c04-end", "created", "imported", "passphrase-changed", "root-key-neutered", "post-conversion-content-scanned", "taproot-address-issued", "marked-used"}, Bound: "one operation order: create, open, unlock, a taproot address (32-byte address id), 3 addresses, two of them marked used, import private key + secret P2SH script + secret witness script, new account, private passphrase change, [neuter the root key], convert to watching-only (afterwards no stored field may open under the master key or the private crypto key), reopen, import of a private key into the reopened watching-only wallet; both passphrases, the new passphrase and both secret scripts SYMBOLIC; every window of every key/value ever written compared with 40+ secrets (and, until imports, public material)"},
+			{Pkg: walletPkg, Fn: "ZzC04WalletInit", Tiers: "qt", Reach: []string{"c04w-end", "accounts-existed-already"}, Bound: "wallet level: Wallet.InitAccounts(scope, watchOnly=true, 2) - the wallet's migrate-to-watching-only entry point - with none, one or all of the accounts existing beforehand: a nil result means running and reopened manager are watching-only and the private passphrase unlocks nothing"},
 			{Pkg: waddrmgrPkg, Fn: "ZzC04RaceB2", Tiers: "qt", Sched: true, NoWitness: true, Reach: []string{"c04-end", "import-refused", "import-succeeded"}, Bound: "ImportPrivateKey concurrent with Manager.Lock, every interleaving of their synchronisation operations with at most 2 preemptions: the key is refused or sealed under the real crypto key, never under the zeroed one"},
 		},
 		Assume: append([]string{
